@@ -156,6 +156,7 @@ func (s *Scratch) BuildAll(rel string) CmdResult {
 }
 
 var rxModelComment = regexp.MustCompile(`swagger:model\s+(.+?)\s*$`)
+var rxDiscriminatorComment = regexp.MustCompile(`swagger:discriminator\s+(\S+)(?:\s+\S+)?\s*$`)
 
 // ModelTypes maps definition name -> Go type name by reading the `swagger:model <name>` comments of
 // the generated package (so the harness never re-implements name mangling).
@@ -185,6 +186,12 @@ func ModelTypes(pkgDir string) (map[string]string, error) {
 					for _, c := range doc.List {
 						if m := rxModelComment.FindStringSubmatch(c.Text); m != nil {
 							out[m[1]] = ts.Name.Name
+						}
+						// a discriminated base type is an interface: "iface:<Type>"
+						if m := rxDiscriminatorComment.FindStringSubmatch(c.Text); m != nil {
+							if _, isIface := ts.Type.(*ast.InterfaceType); isIface {
+								out[m[1]] = "iface:" + ts.Name.Name
+							}
 						}
 					}
 				}
